@@ -90,6 +90,12 @@ class FakeSerialHandle:
         return f"<serial {self.conn.name}>"
 
 
+# which OSError subclass a failing write raises, and whether the first write on an OPEN connection
+# fails with it after a partial write (set only by the error-class sweep of run(); the scenarios
+# compared with the model use the defaults)
+CONN_OPTS = {"err": None, "flaky": False}
+
+
 class FakeConn:
     """Stands for a ReaderThread / TCPTransport object: write() fails with OSError once closed."""
 
@@ -98,13 +104,20 @@ class FakeConn:
         self.name = name
         self.is_open = is_open
         self.serial = FakeSerialHandle(self)
+        self.err = CONN_OPTS["err"] or OSError
+        self.flaky = CONN_OPTS["flaky"] and name == "c0"
 
     def write(self, data):
         self.ctx.point("write." + self.name)
         if not self.is_open:
             self.ctx.attempts.append((self.name, False))
-            raise OSError(9, "Bad file descriptor")
+            raise self.err(9, "Bad file descriptor")
         self.ctx.attempts.append((self.name, True))
+        if self.flaky:
+            # the operating system took part of the command and then reported an error
+            self.flaky = False
+            self.ctx.writes.append((self.name, bytes(data)[:3] + b"..."))
+            raise self.err(11, "injected write error on an open connection")
         self.ctx.writes.append((self.name, bytes(data)))
 
     def close(self):
@@ -336,6 +349,78 @@ def all_schedules(start, other, sender="send", cap=None):
         prefix = next_prefix(path, ens)
 
 
+def real_connection_contract(res):
+    """Transport.send (real, uninstrumented) over the real connection classes of the threaded gateways:
+    gateway_tcp.TCPTransport on a socketpair and pyserial's ReaderThread on a loop:// port, each usable,
+    closed on our side, and (TCP) closed by the peer.  The reader threads are not started (ReaderThread.join
+    is stubbed on the instance), so nothing here depends on timing."""
+    import socket
+    import serial
+    import serial.threaded
+    from mysensors.gateway_tcp import TCPTransport
+    from mysensors.transport import BaseMySensorsProtocol, Transport
+    fails = []
+    for flavour, state in (("tcp", "open"), ("tcp", "closed"), ("tcp", "peer-closed"), ("tcp", "peer-reset"),
+                           ("serial", "open"), ("serial", "closed")):
+        reconn, lost = [], []
+        gwns = types.SimpleNamespace(on_conn_lost=lambda *_a: lost.append(1), on_conn_made=lambda *_a: None)
+        tr = Transport(gwns, lambda _t: None)
+        proto = BaseMySensorsProtocol(gwns, lambda: reconn.append(1))
+        peer = None
+        if flavour == "tcp":
+            sock, peer = socket.socketpair()
+            conn = TCPTransport(sock, lambda: proto, lambda: None)
+            raw = sock
+        else:
+            raw = serial.serial_for_url("loop://", timeout=0)
+            conn = serial.threaded.ReaderThread(raw, lambda: proto)
+        conn.join = lambda *_a: None          # the reader thread was never started
+        proto.transport = conn
+        tr.protocol = proto
+        if state == "closed":
+            raw.close()
+        elif state == "peer-closed":
+            peer.close()
+        elif state == "peer-reset":
+            import struct
+            peer.setsockopt(socket.SOL_SOCKET, socket.SO_LINGER, struct.pack("ii", 1, 0))
+            peer.close()
+        outcome = "ret"
+        try:
+            tr.send(MSG)
+        except BaseException as exc:  # noqa: BLE001
+            outcome = type(exc).__name__
+        got = None
+        if state == "open":
+            try:
+                got = peer.recv(200) if flavour == "tcp" else raw.read(200)
+            except OSError as exc:
+                got = repr(exc)
+        res.count(f"real-conn:{flavour}:{state}:{outcome}")
+        res.distinct.add(digest(["real-conn", flavour, state]))
+        key = {"kind": "real-connection-contract", "flavour": flavour, "state": state}
+        rep = {"op": "real-conn", "flavour": flavour, "state": state}
+        if outcome != "ret":
+            fails.append({"key": key, "replay": rep,
+                          "what": f"Transport.send over a real {flavour} connection ({state}) raised {outcome} "
+                                  f"into its caller (the message pump)"})
+        elif state == "open" and got != MSG.encode():
+            fails.append({"key": key, "replay": rep,
+                          "what": f"Transport.send over a usable real {flavour} connection delivered {got!r}, "
+                                  f"not the whole command"})
+        elif state == "closed" and reconn != [1]:
+            fails.append({"key": key, "replay": rep,
+                          "what": f"write on a closed real {flavour} connection did not end in exactly one "
+                                  f"reconnect request (got {len(reconn)})"})
+        for obj in (raw, peer):
+            try:
+                if obj is not None:
+                    obj.close()
+            except OSError:
+                pass
+    return fails
+
+
 def judge(data):
     """Property C16 on one real execution.  None or (kind, description)."""
     if data["sender"] not in ("ret",):
@@ -480,7 +565,7 @@ def run(tier, seed, driver):
     # (b) all interleavings
     three = {"hook0+made", "hook1+made", "full0+made", "full1+made", "hook0+disc", "hook1+disc"}
     cap3 = 250 if tier == "quick" else 2500
-    nrand3 = 60 if tier == "quick" else 1500
+    nrand3 = (60 if tier == "quick" else 1500) * common.effort(tier)
     counts = {}
     adjacent = {"disconnect_raised": 0, "double_reconnect": 0, "late_clear": 0}
     exhaustive = True
@@ -559,6 +644,39 @@ def run(tier, seed, driver):
     else:
         res.assumptions.append("pinned commit not available from git: regression witness (c) skipped")
 
+    # (c') error classes: a failing write may raise any OSError subclass, on a closed connection or on an
+    # open one after a partial write; judged by the oracle only (the model has one kind of write error)
+    err_classes = [BlockingIOError, BrokenPipeError, ConnectionResetError, ConnectionAbortedError,
+                   TimeoutError, InterruptedError, PermissionError]
+    for err in err_classes:
+        for flaky, start in ((False, "broken"), (True, "connected")):
+            CONN_OPTS["err"], CONN_OPTS["flaky"] = err, flaky
+            try:
+                for other in ("nothing", "hook0", "hook1", "disc", "made"):
+                    for path, obs, data in all_schedules(start, other, cap=60 if tier == "quick" else 2000):
+                        res.count("error-class-schedules")
+                        res.distinct.add(digest(["err", err.__name__, flaky, other, path]))
+                        bad = None
+                        if data["sender"] != "ret":
+                            bad = ("send-raised", f"send ended with {data['sender']}")
+                        elif len(data["attempts"]) > 1:
+                            bad = ("write-twice", f"write() called {len(data['attempts'])} times")
+                        if bad:
+                            res.oracle_failures.append({
+                                "key": {"kind": bad[0], "error": err.__name__, "flaky": flaky, "other": other},
+                                "what": f"{bad[1]} when write raises {err.__name__} on "
+                                        f"{'an open connection after a partial write' if flaky else 'a closed connection'} "
+                                        f"(against={other}, schedule={path})",
+                                "replay": {"op": "run", "sender": "send", "start": start, "other": other,
+                                           "schedule": path, "write_error": err.__name__, "flaky": flaky}})
+            finally:
+                CONN_OPTS["err"], CONN_OPTS["flaky"] = None, False
+
+    # (c'') the real connection objects honour the contract the fakes stand for: write() on a usable
+    # connection hands over the whole command, on a dead one it raises an OSError (which send() absorbs)
+    for bad in real_connection_contract(res):
+        res.oracle_failures.append(bad)
+
     # (d) queue
     qcases = []
     small = [(2, 1), (1, 1, 1)]
@@ -568,7 +686,7 @@ def run(tier, seed, driver):
         for L in range(depth + 1):
             for sched in itertools.product(syms, repeat=L):
                 qcases.append((cnts, list(sched)))
-    nrand = 150 if tier == "quick" else 3000
+    nrand = (150 if tier == "quick" else 3000) * common.effort(tier)
     for _ in range(nrand):
         np_ = rng.randrange(1, 5)
         cnts = tuple(rng.randrange(0, 4) for _ in range(np_))
@@ -641,6 +759,23 @@ def _feasible(start, other, pre):
 def replay(payload):
     r = payload.get("replay", payload)
     print(payload.get("what", ""))
+    if r.get("op") == "real-conn":
+        res = Result()
+        bad = [f for f in real_connection_contract(res) if f["replay"] == r]
+        print(res.histogram)
+        print("oracle:", bad)
+        return 1 if bad else 0
+    if r.get("op") == "run" and r.get("write_error"):
+        import builtins
+        CONN_OPTS["err"], CONN_OPTS["flaky"] = getattr(builtins, r["write_error"]), bool(r.get("flaky"))
+        try:
+            path, ens, obs, data = execute(r["start"], r["other"], r["schedule"], r.get("sender", "send"))
+        finally:
+            CONN_OPTS["err"], CONN_OPTS["flaky"] = None, False
+        print("schedule:", path)
+        print("impl :", obs)
+        print("send ended with:", data["sender"], " write attempts:", data["attempts"])
+        return 1 if data["sender"] != "ret" or len(data["attempts"]) > 1 else 0
     if r.get("op") == "run":
         path, ens, obs, data = execute(r["start"], r["other"], r["schedule"], r.get("sender", "send"))
         print("schedule:", path)
